@@ -57,7 +57,7 @@ def run(rep, kf, tier, seed):
         if o.id.startswith("C10x."):
             o.id = "C10." + o.id[5:]
     from props.common import run_bounded
-    run_bounded(rep, kf, "C10", ["model_properties"], tier)
+    run_bounded(rep, kf, "C10", ["model_properties", "equivalent_docs"], tier)
     rep.trusted.extend(["CPython semantics of the supported subset as encoded in pyvc.symexec"]
                        + ["assumed library contract: " + t for t in libmodels.TRUSTED])
     rep.assumptions.append("document quantifier by schematic models/operations + frame argument (paper, DESIGN 2.4)")
